@@ -171,18 +171,6 @@ static const struct { int board; uint8_t type; uint8_t d[10]; int dl; } RXB[] = 
 };
 #define N_RXB ((int) (sizeof RXB / sizeof RXB[0]))
 static void queue_rx_batch(void) { for (int i = 0; i < N_RXB; i++) { uint8_t m[40], f[90]; int ml = rc_build_msg(m, SB.n[M.b[RXB[i].board].sbnode].addr, 0, RXB[i].type, RXB[i].d, RXB[i].dl); env_push_quiet(f, rc_frame(f, m, (size_t) ml, 1)); } }
-/* the argument classes used in pair mode: all variants of small entries; for the big setters the valid combinations + unknown + NULL */
-static int pair_variants(int e, int *out) {
-	int nv = entry_variants(e), n = 0;
-	if (nv <= 16) { for (int v = 0; v < nv; v++) out[n++] = v; return n; }
-	static const struct { const char *name; int v[6]; } VALID[] = {
-		{"bidib_switch_point", {4, 20, 5, 21, -1}}, {"bidib_set_signal", {38, 55, -1}}, {"bidib_set_peripheral", {72, 8, -1}}, {"bidib_set_train_speed", {28, 45, 12, -1}},
-		{"bidib_set_calibrated_train_speed", {28, 12, -1}}, {"bidib_emergency_stop_train", {12, 13, -1}}, {"bidib_set_train_peripheral", {76, 92, 12, -1}}, {"bidib_set_booster_power_state", {16, 19, 0, -1}},
-		{"bidib_set_track_output_state", {16, 0, 19, -1}}, {"bidib_request_reverser_state", {11, -1}}, {"bidib_identify", {0, 17, 34, -1}}, {"bidib_get_train_peripheral_state", {12, 13, 28, -1}},
-	};
-	for (size_t k = 0; k < sizeof VALID / sizeof VALID[0]; k++) if (!strcmp(VALID[k].name, entry_name(e))) for (int i = 0; VALID[k].v[i] >= 0; i++) out[n++] = VALID[k].v[i];
-	out[n++] = 14; out[n++] = 15; return n;
-}
 static int pair_a, pair_b, pair_rx_mode;
 static void *pair_t(void *arg) { int which = (int) (intptr_t) arg; int e = which ? pair_b : pair_a; int vs[24]; int nv = pair_variants(e, vs);
 	for (int i = 0; i < nv; i++) run_entry(e, vs[i]);
